@@ -180,10 +180,28 @@ Theorem C01_source_max_hint_step :
 Proof. exact source_max_step. Qed.
 Print Assumptions C01_source_max_hint_step.
 
-(** STATIC_MAX_LEVEL (the model's [static_max]) of the two harness builds, from level_filters.rs's feature table. *)
+(** STATIC_MAX_LEVEL (the model's [static_max]) of the harness builds, from level_filters.rs's feature table as read:
+    with debug assertions (default; `max_level_info`) and without (`max_level_info` + `release_max_level_trace`;
+    `max_level_debug` + `release_max_level_info`). *)
 Theorem C01_source_static_max :
   src_static_max [] = 5 /\ src_static_max ["max_level_info"%string] = 3 /\
   src_static_max ["release_max_level_off"%string] = 5 /\
-  src_static_max ["max_level_debug"%string; "max_level_warn"%string] = 2.
+  src_static_max ["max_level_debug"%string; "max_level_warn"%string] = 2 /\
+  src_static_max_of true ["max_level_info"%string; "release_max_level_trace"%string] = 5 /\
+  src_static_max_of true ["max_level_debug"%string; "release_max_level_info"%string] = 3.
 Proof. exact source_static_max. Qed.
 Print Assumptions C01_source_static_max.
+
+(** The compile-time cap is what the feature NAMES configure, for EVERY feature selection and both profiles:
+    `release_max_level_<n>` in a build without debug assertions, `max_level_<n>` in one with them, the most restrictive
+    selected one — whenever that family selects anything (otherwise the level is the source's default for the profile).
+    So the compile-time shortcut never suppresses a delivery below the configured cap: `own_verdict`'s [static_max] term
+    is the configured level, e.g. `release_max_level_trace` means TRACE whatever `max_level_*` features unification adds. *)
+Theorem C01_static_cap_is_configured :
+  forall release (on : string -> bool),
+  match configured_cap release on with
+  | Some l => static_max_of (g_static_max gen_guard) (g_static_release_falls_through gen_guard) release on = l
+  | None => True
+  end.
+Proof. exact source_static_cap_is_configured. Qed.
+Print Assumptions C01_static_cap_is_configured.
